@@ -751,6 +751,9 @@ class LayerBuilder(object):
     a = {}
     if kind == "pwl":
       a["input_keypoints"] = gen_keypoints(s)
+      if len(a["input_keypoints"]) < 3:
+        # (is_cyclic needs at least three keypoints.)
+        a["input_keypoints"] = gen_keypoints(s, 3)
       a["units"] = s.weighted([(1, 3), (2, 2), (3, 1)])
       mono = s.choice([0, 1, -1, "none", "increasing", "decreasing"])
       a["monotonicity"] = mono
